@@ -1720,6 +1720,30 @@ sc_io_read (sc_MPI_File mpifile, void *ptr, size_t zcount,
 #endif
 }
 
+#ifdef SC_ENABLE_MPIIO
+
+/** Count the whole elements that a read has transferred.
+ * When the file ends inside an element MPI_Get_count yields MPI_UNDEFINED.
+ */
+static void
+sc_io_read_count (sc_MPI_Status * mpistatus, sc_MPI_Datatype t, int *ocount)
+{
+  int                 mpiret;
+  int                 bytes, tsize;
+
+  mpiret = sc_MPI_Get_count (mpistatus, t, ocount);
+  SC_CHECK_MPI (mpiret);
+  if (*ocount == sc_MPI_UNDEFINED) {
+    mpiret = sc_MPI_Get_count (mpistatus, sc_MPI_BYTE, &bytes);
+    SC_CHECK_MPI (mpiret);
+    mpiret = sc_MPI_Type_size (t, &tsize);
+    SC_CHECK_MPI (mpiret);
+    *ocount = bytes / tsize;
+  }
+}
+
+#endif /* SC_ENABLE_MPIIO */
+
 int
 sc_io_read_at (sc_MPI_File mpifile, sc_MPI_Offset offset, void *ptr,
                int count, sc_MPI_Datatype t, int *ocount)
@@ -1739,8 +1763,7 @@ sc_io_read_at (sc_MPI_File mpifile, sc_MPI_Offset offset, void *ptr,
   mpiret = MPI_File_read_at (mpifile, offset, ptr, count, t, &mpistatus);
   if (mpiret == sc_MPI_SUCCESS && count > 0) {
     /* working around 0 count not working for some implementations */
-    mpiret = sc_MPI_Get_count (&mpistatus, t, ocount);
-    SC_CHECK_MPI (mpiret);
+    sc_io_read_count (&mpistatus, t, ocount);
     return sc_MPI_SUCCESS;
   }
   retval = sc_io_error_class (mpiret, &errcode);
@@ -1824,8 +1847,7 @@ sc_io_read_at_all (sc_MPI_File mpifile, sc_MPI_Offset offset, void *ptr,
                                  count, t, &mpistatus);
   if (mpiret == sc_MPI_SUCCESS && count > 0) {
     /* working around 0 count not working for some implementations */
-    mpiret = sc_MPI_Get_count (&mpistatus, t, ocount);
-    SC_CHECK_MPI (mpiret);
+    sc_io_read_count (&mpistatus, t, ocount);
 
     return sc_MPI_SUCCESS;
   }
